@@ -35,6 +35,7 @@ class Contract:
     setup: object = None  # callable(E, st)
     trusted: list = field(default_factory=list)
     min_paths: int = 1
+    no_raise_role: str = "safety"  # role of the `no-raise` obligations when allow_raise is False
 
     @property
     def target(self):
@@ -311,7 +312,7 @@ def verify(ctx, contract: Contract, timeout_s=None):
                 for name, role, fn_ in contract.raises:
                     E.obligations.append(EN.Obligation(f"raises.{name}", role, list(s.pc), fn_(E, s, out.val), "/".join(s.decisions), "raise"))
                 if not contract.allow_raise and not contract.raises:
-                    E.obligations.append(EN.Obligation("no-raise", "safety", list(s.pc), False, "/".join(s.decisions), "raise"))
+                    E.obligations.append(EN.Obligation("no-raise", contract.no_raise_role, list(s.pc), False, "/".join(s.decisions), "raise"))
             else:
                 raise Unsupported(f"path ends with {out.kind}")
             for name, role, fn_ in contract.exits:
